@@ -1,0 +1,147 @@
+//go:build verif
+
+package biscuit
+
+// Contracts for the deductive verifier in /verif. This file contains comments
+// only: with the build tag off it is not compiled, with it on it adds no code.
+// Syntax: /verif/DESIGN.md, Appendix B.
+
+// ---------------------------------------------------------------------------
+// root key identifier (C16)
+
+//@ func (b *Biscuit) RootKeyID() (res *uint32)
+//@ serves C16 C10
+//@ requires b != nil && b.container != nil
+//@ modifies nothing
+//@ ensures res == b.container.RootKeyId
+
+//@ func WithRootPublicKeys$1(id *uint32) (key ed25519.PublicKey, err error)
+//@ serves C16
+//@ modifies nothing
+//@ ensures default_key: id == nil && defaultKey != nil ==> err == nil && key == *defaultKey
+//@ ensures no_default: id == nil && defaultKey == nil ==> err == ErrNoPublicKeyAvailable && key == nil
+//@ ensures by_id: id != nil && has(keysByID, *id) ==> err == nil && key == keysByID[*id]
+//@ ensures unknown_id: id != nil && !has(keysByID, *id) ==> err == ErrNoPublicKeyAvailable && key == nil
+
+//@ func WithSingularRootPublicKey$1(id *uint32) (k ed25519.PublicKey, err error)
+//@ serves C16
+//@ modifies nothing
+//@ ensures err == nil && k == key
+
+// ---------------------------------------------------------------------------
+// token construction (C01 C16 C20)
+
+//@ func newBiscuit(root ed25519.PrivateKey, baseSymbols *datalog.SymbolTable, authority *Block, opts []biscuitOption) (res *Biscuit, err error)
+//@ serves C01 C10 C16 C20
+//@ requires len(root) == 64 && baseSymbols != nil && blockWF(authority)
+//@ requires forall j int :: { opts[j] } 0 <= j && j < len(opts) ==> opts[j] != nil
+//@ loop 0 invariant (forall j int :: { opts[j] } 0 <= j && j < #i ==> !(opts[j] is rootKeyIDOption)) ==> options.rootKeyID == nil
+//@ loop 0 invariant #i > 0 && opts[#i-1] is rootKeyIDOption ==> options.rootKeyID != nil && *options.rootKeyID == opts[#i-1].(rootKeyIDOption)
+//@ ensures no_token_on_error: err != nil ==> res == nil
+//@ ensures wf: err == nil ==> wfToken(res) && len(res.blocks) == 0 && res.authority == authority
+//@ ensures keyid_absent[C16]: err == nil && (forall j int :: { opts[j] } 0 <= j && j < len(opts) ==> !(opts[j] is rootKeyIDOption)) ==> res.container.RootKeyId == nil
+//@ ensures keyid_last[C16]: err == nil && len(opts) > 0 && opts[len(opts)-1] is rootKeyIDOption ==> res.container.RootKeyId != nil && *res.container.RootKeyId == opts[len(opts)-1].(rootKeyIDOption)
+//@ ensures next_key: err == nil ==> len(res.container.Authority.NextKey.Key) == 32 && hasNextSecret(res.container.Proof) && len(nextSecret(res.container.Proof)) == 32 && bview(res.container.Authority.NextKey.Key) == pubOfPriv(privOfSeed(bview(nextSecret(res.container.Proof))))
+//@ ensures signed_by_root: err == nil ==> link(pubOfPriv(bview(root)), res.container.Authority)
+
+//@ func (b *Biscuit) Append(rng io.Reader, block *Block) (res *Biscuit, err error)
+//@ serves C01 C08 C09 C10 C16 C17 C19 C20
+//@ requires wfToken(b) && blockWF(block)
+//@ modifies nothing
+//@ loop 0 invariant forall j int :: { blocks[j] } 0 <= j && j < #i ==> blocks[j] != nil && fresh(blocks[j]) && wfBlock(blocks[j])
+//@ loop 0 invariant len(blocks) == len(b.blocks) + 1 && fresh(arr(blocks)) && fresh(authority) && wfBlock(authority)
+//@ ensures no_token_on_error: err != nil ==> res == nil
+//@ ensures refuses_sealed: !hasNextSecret(b.container.Proof) ==> err != nil
+//@ ensures wf: err == nil ==> wfToken(res) && len(res.blocks) == len(b.blocks) + 1
+//@ ensures keyid[C16]: err == nil ==> optEq(res.container.RootKeyId, b.container.RootKeyId)
+//@ ensures envelope_prefix: err == nil ==> res.container.Authority == b.container.Authority && len(res.container.Blocks) == len(b.container.Blocks) + 1 && (forall i int :: { res.container.Blocks[i] } 0 <= i && i < len(b.container.Blocks) ==> res.container.Blocks[i] == b.container.Blocks[i])
+//@ ensures next_key: err == nil ==> hasNextSecret(res.container.Proof) && len(nextSecret(res.container.Proof)) == 32 && len(res.container.Blocks[len(b.container.Blocks)].NextKey.Key) == 32 && bview(res.container.Blocks[len(b.container.Blocks)].NextKey.Key) == pubOfPriv(privOfSeed(bview(nextSecret(res.container.Proof))))
+//@ ensures signed_by_held_key: err == nil ==> link(pubOfPriv(privOfSeed(old(bview(nextSecret(b.container.Proof))))), res.container.Blocks[len(b.container.Blocks)])
+
+//@ func (b *Biscuit) Seal(rng io.Reader) (res *Biscuit, err error)
+//@ serves C01 C08 C09 C10 C16 C17 C19
+//@ requires wfToken(b)
+//@ modifies nothing
+//@ loop 0 invariant forall j int :: { blocks[j] } 0 <= j && j < #i ==> blocks[j] != nil && fresh(blocks[j]) && wfBlock(blocks[j])
+//@ loop 0 invariant len(blocks) == len(b.blocks) && fresh(arr(blocks)) && fresh(authority) && wfBlock(authority)
+//@ ensures no_token_on_error: err != nil ==> res == nil
+//@ ensures refuses_sealed: !hasNextSecret(b.container.Proof) ==> err != nil
+//@ ensures wf: err == nil ==> wfToken(res) && len(res.blocks) == len(b.blocks)
+//@ ensures keyid[C16]: err == nil ==> optEq(res.container.RootKeyId, b.container.RootKeyId)
+//@ ensures envelope_same: err == nil ==> res.container.Authority == b.container.Authority && len(res.container.Blocks) == len(b.container.Blocks) && (forall i int :: { res.container.Blocks[i] } 0 <= i && i < len(b.container.Blocks) ==> res.container.Blocks[i] == b.container.Blocks[i])
+//@ ensures sealed: err == nil ==> hasFinalSig(res.container.Proof) && !hasNextSecret(res.container.Proof)
+
+// ---------------------------------------------------------------------------
+// converters, token -> wire (C07 C10)
+
+//@ func tokenIDToProtoIDV2(input datalog.Term) (res *pb.TermV2, err error)
+//@ serves C07 C10
+//@ requires termWF(input)
+//@ modifies nothing
+//@ loop 0 invariant fresh(arr(protoSet))
+//@ ensures err == nil ==> res != nil && fresh(res)
+//@ ensures err != nil ==> res == nil
+
+//@ func tokenPredicateToProtoPredicateV2(input datalog.Predicate) (res *pb.PredicateV2, err error)
+//@ serves C07 C10
+//@ requires predWF(input)
+//@ modifies nothing
+//@ loop 0 invariant true
+//@ ensures err == nil ==> res != nil && fresh(res)
+//@ ensures err != nil ==> res == nil
+
+//@ func tokenFactToProtoFactV2(input datalog.Fact) (res *pb.FactV2, err error)
+//@ serves C07 C10
+//@ requires predWF(input.Predicate)
+//@ modifies nothing
+//@ ensures err == nil ==> res != nil && fresh(res)
+//@ ensures err != nil ==> res == nil
+
+//@ func tokenExprUnaryToProtoExprUnary(op datalog.UnaryOp) (res *pb.OpUnary, err error)
+//@ serves C07 C10
+//@ requires op.UnaryOpFunc != nil
+//@ modifies nothing
+//@ ensures err == nil ==> res != nil && fresh(res) && res.Kind != nil
+//@ ensures err != nil ==> res == nil
+
+//@ func tokenExprBinaryToProtoExprBinary(op datalog.BinaryOp) (res *pb.OpBinary, err error)
+//@ serves C07 C10
+//@ requires op.BinaryOpFunc != nil
+//@ modifies nothing
+//@ ensures err == nil ==> res != nil && fresh(res) && res.Kind != nil
+//@ ensures err != nil ==> res == nil
+
+//@ func tokenExpressionToProtoExpressionV2(input datalog.Expression) (res *pb.ExpressionV2, err error)
+//@ serves C07 C10
+//@ requires exprWF(input)
+//@ modifies nothing
+//@ loop 0 invariant true
+//@ ensures err == nil ==> res != nil && fresh(res)
+//@ ensures err != nil ==> res == nil
+
+//@ func tokenRuleToProtoRuleV2(input datalog.Rule) (res *pb.RuleV2, err error)
+//@ serves C07 C10
+//@ requires ruleWF(input)
+//@ modifies nothing
+//@ loop 0 invariant true
+//@ loop 1 invariant true
+//@ ensures err == nil ==> res != nil && fresh(res)
+//@ ensures err != nil ==> res == nil
+
+//@ func tokenCheckToProtoCheckV2(input datalog.Check) (res *pb.CheckV2, err error)
+//@ serves C07 C10
+//@ requires checkWF(input)
+//@ modifies nothing
+//@ loop 0 invariant true
+//@ ensures err == nil ==> res != nil && fresh(res)
+//@ ensures err != nil ==> res == nil
+
+//@ func tokenBlockToProtoBlock(input *Block) (res *pb.Block, err error)
+//@ serves C07 C10
+//@ requires blockWF(input)
+//@ modifies nothing
+//@ loop 0 invariant true
+//@ loop 1 invariant true
+//@ loop 2 invariant true
+//@ ensures err == nil ==> res != nil && fresh(res)
+//@ ensures err != nil ==> res == nil
